@@ -304,8 +304,8 @@ func runC08(tier string, _ []string) int {
 			evs = v.mon.snapshot()
 			got := map[int64]bool{}
 			for _, e := range evs {
-				if e.Kind == "points" && len(e.Points) == 1 && e.Points[0].Type == "vmarker" {
-					got[e.Client] = true
+				if e.Kind == "points" && len(e.Points) == 1 && e.Points[0].Type == "vmarker" && strings.HasPrefix(e.Points[0].Text, "end-") {
+					got[e.Client] = true // (the end marker, not one of the barrier markers of the settling rounds before)
 				}
 			}
 			all := true
